@@ -15,7 +15,7 @@ TRACE = "TraceGraphAlgebra"
 SUBJ = ["s1", "s2", "b1"]
 PRED = ["p1", "p2"]
 OBJ = ["s1", "s2", "b1", "b2", "o1", "o2"]
-STORES = ["separate", "shared", "simple", "shared_default", "mixed"]
+STORES = ["separate", "shared", "simple", "shared_default", "mixed", "same_id", "same_id_shared_default"]
 VOCABS = ["plain", "falsy", "hostile", "typed"]
 
 
@@ -74,32 +74,51 @@ def reads(rng, g):
     return out
 
 
+def batch_event(rng, g):
+    size = rng.choice([2, 3, 4])
+    return {"op": "batch", "g": g, "size": size, "addn": rng.random() < 0.3, "ts": [rand_triple(rng) for _ in range(size * rng.randint(0, 3) + rng.choice([0, 0, 1]))]}
+
+
 def run(out, tier, seed):
+    make_jobs(out, tier, seed)
+
+
+def add_jobs(out, tier, seed, stores=None, label="graph-api"):
+    """the G04 jobs as a step of a listed property's check (C01: every configuration; C02: the configurations with several graphs in one store)"""
+    make_jobs(out, tier, seed, stores=stores, label=label, light=True)
+
+
+def make_jobs(out, tier, seed, stores=None, label=None, light=False):
     quick = tier == "quick"
+    rule0, ass0 = out.rule, list(out.assumptions)
     out.rule = ("every history of length 2 (3 in the thorough tier) of GraphAlgebra.tla's alphabet (add, set, remove by every pattern, +=, -=, + - * ^, value(any=False), cbd, connected on two graphs over a "
                 "6-triple universe with a blank node) from 4 start states, each followed by one of every read; plus seeded histories of 6-30 calls over a 36-triple universe (2 blank nodes) with every read "
                 "(value with each wildcard position / default / any, subjects / predicates / objects and the pair forms with and without unique, triples_choices on each position, cbd, all_nodes, connected, "
                 "isomorphic, in, len, the four binary operators); two graphs in separate Memory stores, separate SimpleMemory stores, one Dataset store (named / default + named), or mixed; "
                 "plain / falsy / hostile / typed terms; after every call the content of both graphs and both len()")
     out.assumptions += ["cbd: rules 1 and 2 of the CBD definition (no reification vocabulary in the data)", "Graph.isomorphic is documented as an approximation that is exact without blank nodes: judged on ground graphs only (rdflib.compare is C14)"]
+    if light:      # a step of another property's check: that property's own description stays, this one is appended
+        out.rule = rule0 + " || graph-API step (GraphOps.tla): " + out.rule[:400]
+        out.assumptions = ass0
     out.mc("GraphAlgebra", "MC_GraphAlgebra.cfg")
     rng = random.Random(seed)
     jobs = []
-    r, hs = gen(2 if quick else 3)
+    ST = stores or STORES
+    r, hs = gen(2 if (quick or light) else 3)
     out.states += r.distinct
     out.extra["histories"] = len(hs)
     starts = [([], []), ([["s1", "p1", "b1"], ["b1", "p1", "o2"]], [["s1", "p1", "b1"]]), ([["s1", "p1", "s1"], ["s1", "p1", "o2"], ["b1", "p1", "b1"]], [["b1", "p1", "s1"], ["s1", "p1", "o2"]]),
               ([["b1", "p1", "o2"]], [["s1", "p1", "s1"], ["s1", "p1", "b1"], ["s1", "p1", "o2"], ["b1", "p1", "s1"], ["b1", "p1", "b1"], ["b1", "p1", "o2"]])]
     n = 0
-    stride = 4 if quick else 6
+    stride = (4 if quick else 6) * (3 if light else 1)
     for h in hs:
         for a0, b0 in starts:
             n += 1
             if (n + seed) % stride:
                 continue
             evs = [{"op": "new", "A0": a0, "B0": b0}] + [dict(e) for e in h] + reads(rng, "AB"[n % 2])
-            jobs.append({"cfg": {"stores": STORES[n % len(STORES)], "vocab": VOCABS[(n // 5) % 4]}, "events": evs})
-    for i in range(400 if quick else 6000):
+            jobs.append({"cfg": {"stores": ST[n % len(ST)], "vocab": VOCABS[(n // 5) % 4]}, "events": evs})
+    for i in range((400 if quick else 6000) // (2 if light else 1)):
         k = rng.randint(0, 8)
         evs = [{"op": "new", "A0": [rand_triple(rng) for _ in range(k)], "B0": [rand_triple(rng) for _ in range(rng.randint(0, 8))]}]
         vocab = rng.choice(VOCABS)
@@ -107,8 +126,10 @@ def run(out, tier, seed):
             x = rng.random()
             g = rng.choice("AB")
             h = "B" if g == "A" else "A"
-            if x < 0.15:
+            if x < 0.1:
                 evs.append({"op": "add", "g": g, "t": rand_triple(rng)})
+            elif x < 0.17:
+                evs.append(batch_event(rng, g))
             elif x < 0.3:
                 evs.append({"op": "set", "g": g, "t": rand_triple(rng)})
             elif x < 0.4:
@@ -120,12 +141,12 @@ def run(out, tier, seed):
             else:
                 evs.append(rng.choice(reads(rng, g)))
         evs += reads(rng, "A") + reads(rng, "B")
-        jobs.append({"cfg": {"stores": rng.choice(STORES), "vocab": vocab}, "events": evs})
+        jobs.append({"cfg": {"stores": rng.choice(ST), "vocab": vocab}, "events": evs})
     # Graph.isomorphic() is documented as exact only when no blank nodes are involved: ground graphs
     for i in range(100 if quick else 1000):
         pool = [[s, p, o] for s in ("s1", "s2") for p in PRED for o in ("s1", "s2", "o1", "o2")]
         a0 = rng.sample(pool, rng.randint(0, 5))
         b0 = list(a0) if rng.random() < 0.5 else rng.sample(pool, rng.randint(0, 5))
         evs = [{"op": "new", "A0": a0, "B0": b0}, {"op": "iso", "g": "A", "h": "B"}, {"op": "iso", "g": "B", "h": "A"}]
-        jobs.append({"cfg": {"stores": rng.choice(STORES), "vocab": "plain"}, "events": evs})
-    out.conform(__name__, TRACE, jobs, nontrivial=nontrivial, chunk=300, par=16, heap="2g")
+        jobs.append({"cfg": {"stores": rng.choice(ST), "vocab": "plain"}, "events": evs})
+    out.conform(__name__, TRACE, jobs, nontrivial=nontrivial, chunk=300, par=16, heap="2g", **({"label": label} if label else {}))
